@@ -26,8 +26,7 @@ package utils
 // control flow is the conversion of the accumulated borrow/difference into the returned verdict.
 //@ func utils.ConstantTimeCmp#ct
 //@ secret a, b
-//@ declassify borrow == 0 : the comparison outcome is the value the function returns (final verdict)
-//@ declassify diff != 0 : the comparison outcome is the value the function returns (final verdict)
+//@ verdicts
 
 // ---------------------------------------------------------------------------------------------
 // Write-effect contracts (property C17): parameters not listed under `writes` are read-only;
